@@ -1853,7 +1853,19 @@ def c19_case(key, vals):
     names = spec_names(cls) or list(cls.__slots__)
     if list(cls.__slots__) != names:
         return ('argument names in wire order %r' % names, list(cls.__slots__))
-    foreign = (set(dir(obj)) | {'__slots__', '__annotations__', '__dict__', '__class__', 'name', 'index', 'frame_id', 'marshal', ''}) - set(names)
+    foreign = set(dir(obj)) | {'__slots__', '__annotations__', '__dict__', '__class__', 'name', 'index', 'frame_id', 'marshal', ''}
+    # ... and every string that some transformation (a prefix / suffix added or peeled, another case) turns
+    # into an existing attribute or into an argument name
+    for n in list(foreign) + names:
+        foreign |= {n[1:], n[2:], n[:-1], n[:-2], '_' + n, '__' + n, n + '_', n + '__', n.upper(), n.capitalize(), n.strip('_'), ' ' + n, n + ' ',
+                    n.replace('_', '-'), n.replace('_', '')}
+    foreign -= set(names)
+    for n in (None, 0, 1, True, 1.5, b'x', ('x',), frozenset()) + tuple(a.encode() for a in names[:2]):
+        try:
+            if n in obj:
+                return ('%r is not an argument name, so not a member' % (n,), 'reported as member')
+        except Exception as e:  # noqa
+            return ('membership test of %r answers False like `in` on the name list' % (n,), repr(e))
     for n in sorted(foreign):
         try:
             if n in obj:
@@ -1876,6 +1888,20 @@ def c19_case(key, vals):
                 return ('membership / item access / amqp_type of %s' % n, (n in o, o.amqp_type(n)))
         if 'no_such_attribute' in o:
             return ('unknown name is not a member', True)
+        # iterations of the same object may overlap: each one yields the whole ordered list
+        with real.deadline(5):
+            z = list(itertools.islice(zip(o, o), len(names) + 2))
+            if [a[0] for a, b in z] != names or [b[0] for a, b in z] != names:
+                return ('zip(frame, frame) pairs each name with itself, in order', [(a[0], b[0]) for a, b in z][:6])
+            nested = list(itertools.islice(((a[0], b[0]) for a in o for b in o), len(names) ** 2 + 2))
+            if nested != [(a, b) for a in names for b in names]:
+                return ('a nested loop over one frame visits all %d pairs' % len(names) ** 2, nested[:6])
+            it = iter(o)
+            first = [next(it)[0]] if names else []
+            whole = [k for k, _ in o]
+            rest = [k for k, _ in itertools.islice(it, len(names) + 2)]
+            if whole != names or first + rest != names:
+                return ('a half-consumed iterator is independent of a later iteration', (first + rest, whole))
         return None
     bad = check(obj, vals)
     if bad:
